@@ -1,0 +1,21 @@
+//go:build verif
+
+// Contracts for the exovc verifier (/verif). Comment-only: with the tag off this file is not part
+// of the package, with the tag on it declares nothing.
+package evm
+
+// C19 (every Ethereum transaction consumes exactly the next nonce of its sender; a stale or future nonce is not
+// admitted): the account's sequence is increased - and the transaction handed on - only on a path on which the nonce
+// carried by the transaction equals the account's current sequence; the new sequence is the old one plus one.
+//@ func (EthIncrementSenderSequenceDecorator).AnteHandle#next
+//@   flag assumed
+//@   modifies state(ctx), trace
+
+//@ func (EthIncrementSenderSequenceDecorator).AnteHandle
+//@   flag noframe
+//@   flag pure=GetMsgs,GetFrom,GetAccount,GetSequence,UnpackTxData,GetNonce,Wrapf,Wrap
+//@   flag havoc=SetAccount
+//@   before[C19.isd.exact] SetSequence requires res_GetNonce_0 == res_GetSequence_0 && (arg0 == res_GetSequence_0 + 1 || res_GetSequence_0 == 18446744073709551615)
+//@   before[C19.isd.set]   SetAccount requires defined(res_SetSequence_0)
+//@ loop #1
+//@   invariant true
